@@ -4,6 +4,8 @@ from sa.rules import store, ownrule
 
 
 def check(ix, rep):
+    from sa.rules import round11 as _r11
+    rep.floor('get_value implementations', _r11.check_get_value(ix, rep), 2)
     n = store.check_store(ix, rep)
     rep.floor('result-store obligations', n, 12)
     ni = store.check_identity_keys(ix, rep)
